@@ -17,16 +17,29 @@ FORBIDDEN = re.compile(r"\bsorry\b|\badmit\b|^\s*axiom\s|native_decide|bv_decide
 sys.path.insert(0, os.path.join(VERIF, "tools"))
 
 
+_lock_depth = 0
+_lock_file = None
+
+
 @contextmanager
 def lake_lock():
-    os.makedirs(os.path.join(LEAN_DIR, ".lake"), exist_ok=True)
-    f = open(os.path.join(LEAN_DIR, ".lake", "verif.lock"), "w")
+    """re-entrant, process-wide exclusive lock on the lake project (flock-compatible with `flock lean/.lake/verif.lock`):
+    a check holds it across translate + build + audit so that a concurrent check working on another tree
+    (VERIF_REPO) cannot regenerate Gen/ in between"""
+    global _lock_depth, _lock_file
+    if _lock_depth == 0:
+        os.makedirs(os.path.join(LEAN_DIR, ".lake"), exist_ok=True)
+        _lock_file = open(os.path.join(LEAN_DIR, ".lake", "verif.lock"), "w")
+        fcntl.flock(_lock_file, fcntl.LOCK_EX)
+    _lock_depth += 1
     try:
-        fcntl.flock(f, fcntl.LOCK_EX)
         yield
     finally:
-        fcntl.flock(f, fcntl.LOCK_UN)
-        f.close()
+        _lock_depth -= 1
+        if _lock_depth == 0:
+            fcntl.flock(_lock_file, fcntl.LOCK_UN)
+            _lock_file.close()
+            _lock_file = None
 
 
 def translate(only=None):
@@ -168,6 +181,27 @@ def audit(prop_id, timeout=1800):
 
 
 DRIVER = os.path.join(LEAN_DIR, ".lake", "build", "bin", "driver")
+_private_driver = None
+
+
+def snapshot_driver():
+    """copy the freshly built driver to a private path (call while holding the lock): later rebuilds by other
+    processes cannot swap the binary under a running correspondence check"""
+    global _private_driver
+    import shutil
+    d = os.path.join(VERIF, "out", "drivers")
+    os.makedirs(d, exist_ok=True)
+    dst = os.path.join(d, f"driver_{os.getpid()}")
+    shutil.copy2(DRIVER, dst)
+    _private_driver = dst
+    return dst
+
+
+def drop_driver_snapshot():
+    global _private_driver
+    if _private_driver and os.path.exists(_private_driver):
+        os.remove(_private_driver)
+    _private_driver = None
 
 
 def run_driver(lines, timeout=1800):
@@ -175,7 +209,7 @@ def run_driver(lines, timeout=1800):
     if not lines:
         return []
     inp = "\n".join(lines) + "\n"
-    p = subprocess.run([DRIVER], input=inp, stdout=subprocess.PIPE, stderr=subprocess.PIPE, text=True,
+    p = subprocess.run([_private_driver or DRIVER], input=inp, stdout=subprocess.PIPE, stderr=subprocess.PIPE, text=True,
                        timeout=timeout)
     if p.returncode != 0:
         raise RuntimeError(f"driver exit {p.returncode}: {p.stderr[:2000]}")
